@@ -22,6 +22,16 @@ def run(r):
     nn = get_nn(r)
     rep.explanation = "Every subscript on a sequence container in nn.py was typed (raw / positional); _make_output, its call sites and the validation routine were compared with the specification."
     rep.trust("pyrepseq.util.ensure_numpy / numpy.asarray / list() return containers addressed by 0-based position", "scipy.sparse.coo_matrix((data, (row, col)), shape=s)[row[k], col[k]] = data[k] (duplicates would be summed)")
+    # the combined entry point hands every argument (output_type included) on to symdel
+    from ._nn import check_role_forwarding, resolve_callee
+    q0 = MOD + "nearest_neighbor"
+    s0 = nn.summary(q0)
+    rep.analysed(q0)
+    calls0 = [e for e in s0.events_of("call") if resolve_callee(nn, q0, e["term"])[0] == MOD + "symdel"]
+    if len(calls0) != 1:
+        rep.require(False, f"{q0}: expected one call to symdel, found {len(calls0)}; cannot decide [C10-BIND]")
+    else:
+        check_role_forwarding(r, "C10-BIND", q0, calls0[0]["term"], calls0[0].node)
     n = check_typestate(r, "C10-TS")
     rep.require(n >= 7, f"C10-TS: {n} container subscripts typed, floor is 7 (12 on the validated tree; a refactoring may share subscripts through local names)")
     check_make_output(r, "C10-OUT")
